@@ -5,6 +5,7 @@ SPECIFICATION WsSpec
 CONSTANTS
   AllowDupStart = FALSE
   AllowSilentInit = FALSE
+  AllowRestartRace = FALSE
   AllowDoubleError = FALSE
   SInsts <- MCSInsts
   SIds <- MCSIds
